@@ -919,8 +919,8 @@ class Prop:
             lists = [p[3] for ch in c[6] for p in ch[5]]
         else:
             return False
-        if t == 12 and c[8][1]:
-            # the med action re-appends MED at the end of the vector before LOCAL_PREF is injected
+        if t == 12 and (c[8][1] or (len(c[8]) > 4 and c[8][4])):
+            # the med / as-prepend actions re-append their attribute at the end of the vector before LOCAL_PREF is injected
             return any(find(l, LOCAL_PREF) is None for l in lists)
         return any(find(l, LOCAL_PREF) is None and not partitioned_lt5(l) for l in lists)
 
